@@ -43,13 +43,13 @@ Definition section_type (title : list N) : stype :=
 Definition body_lines (ls : list (list N)) (p : spos) : list (list N) :=
   firstn (sp_last p - sp_first p) (skipn (S (sp_first p)) ls).
 
-(* the ~Other loop (las.py): starts AT the title line, skips lines that begin with '~'
+(* the ~Other loop (las.py): starts AT the title line, skips (stripped) lines that begin with '~'
    without counting them, stops when line_no reaches last_line *)
 Fixpoint other_loop (ls : list (list N)) (line_no last : nat) (acc : list (list N)) : list (list N) :=
   match ls with
   | [] => rev acc
   | l :: ls' =>
-      if startswith [ch_tilde] l then
+      if startswith [ch_tilde] (strip l) then
         if Nat.eqb line_no last then rev acc else other_loop ls' line_no last acc
       else
         let line_no' := S line_no in
